@@ -37,7 +37,7 @@ def _inner_entries():
 
 
 def gen_cases(tier, seed):
-    reps = {"quick": 8, "thorough": 70}[tier]
+    reps = {"quick": 8, "thorough": 250}[tier]
     cases = []
     for name in _inner_entries():
         e = POOL[name]
@@ -52,7 +52,7 @@ def gen_cases(tier, seed):
             s = stable_hash(seed, "C07", "exhaust", name, i)
             cases.append({"strategy": "saw", "entry": name, "seed": s, "cmode": ["idx", "none"][i % 2], "amode": "none", "regime": "cold",
                           "nmax": 9 if tier == "quick" else 14, "bs": "all"})
-    for i in range({"quick": 40, "thorough": 400}[tier]):
+    for i in range({"quick": 40, "thorough": 1500}[tier]):
         s = stable_hash(seed, "C07", "iet", i)
         cases.append({"strategy": "iet", "entry": "IntervalEstimationThreshold", "seed": s, "cmode": CMODES[i % 3],
                       "amode": "none", "regime": "rows", "nmax": 10})
